@@ -1,7 +1,8 @@
 """C12 — bounded stand-in on temporary trees (runtime/h_fs.py)."""
 ID = "C12"
 LEVEL = "exploration"
-FUNCTIONS = []
+FUNCTIONS = ['codelimit.commands.check:check_file', 'codelimit.commands.check:_handle_file_path', 'codelimit.common.Scanner:_analyze_file', 'codelimit.common.Scanner:_read_file']
+BOUNDED_SKIP = ['codelimit.commands.check:check_file', 'codelimit.commands.check:_handle_file_path', 'codelimit.common.Scanner:_analyze_file', 'codelimit.common.Scanner:_read_file']
 TRUSTED = ["the file system of the sandbox; Pygments; pathspec"]
 ASSUMPTIONS = []
 BOUND = '6 generated trees (thorough 60) incl. a Latin-1 source and a malformed file x {root directory, absolute directory, every single file by relative path}'
